@@ -449,6 +449,10 @@ def _splice(u, text, spec, file, line0, name, where):
     for k in spec.loops:
         if k < 1 or k > len(loop_pos):
             raise ExtractError("%s: loop %d not found in %s (has %d loops)" % (where, k, name, len(loop_pos)))
+    if spec.loops and len(loop_pos) > max(spec.loops):
+        # the function has more loops than the unit has invariants for (a loop was added or split): the invariants would be attached
+        # to loops they were not written for, and what then fails is not a refutation — undecided, never an alarm
+        raise ExtractError("%s: %s has %d loops, the unit has invariants for %d: loop structure changed" % (where, name, len(loop_pos), max(spec.loops)))
     # insertion points as (offset_in_body, payload_lines, clause-or-None)
     ins = []
     for k, cls in spec.loops.items():
